@@ -37,7 +37,13 @@ func svSameWrites(a, b []svKV) bool {
 
 // svAnyKind builds a transaction of one of the encoded kinds (family choice).
 func svAnyKindEnv() (*svEnv, action.RawTx, []int) {
-	switch sv.Choice("family", 3) {
+	switch sv.Choice("family", 4) {
+	case 3:
+		svCurrencyLimit = 2
+		pre := &svDomainPre{}
+		e := svNewEnv(2, 20, svPreONS(pre))
+		raw, s := svBuildONS(e, sv.Choice("kind", 7))
+		return e, raw, s
 	case 0:
 		e := svNewEnv(2, 20, nil)
 		if sv.Choice("kind", 2) == 0 {
@@ -65,7 +71,7 @@ func svAnyKindEnv() (*svEnv, action.RawTx, []int) {
 // SV_C06_failed_tx_noop: a delivered transaction with a non-zero code leaves
 // the block write cache and every ledger cell exactly as before.
 //
-// sv:bounds every encoded kind (SEND, SENDPOOL, STAKE, UNSTAKE, WITHDRAW, 4 delegation kinds) with havoc payload, fee and roles from an arbitrary funded state; both regimes: admitted by Validate, or delivered directly (regime choice); one transaction
+// sv:bounds every encoded kind (SEND, SENDPOOL, STAKE, UNSTAKE, WITHDRAW, 4 delegation kinds, 7 domain-name kinds) with havoc payload, fee and roles from an arbitrary funded state; both regimes: admitted by Validate, or delivered directly (regime choice); one transaction
 // sv:outside kinds not yet encoded; OLVM transactions (EVM object cache); in-memory fields of the stores (only the state writes and the ledger are compared); removal of the failed transaction from a multi-transaction block
 // sv:goal Code != 0 implies the block-level write cache (keys, order, values) and all ledger cells are unchanged
 func SV_C06_failed_tx_noop() {
